@@ -11,9 +11,13 @@ import (
 	"bytes"
 	"encoding/hex"
 	"encoding/json"
+	"errors"
 	"fmt"
 	"github.com/storacha/go-ucanto/core/dag/blockstore"
 	"github.com/storacha/go-ucanto/core/receipt/fx"
+	"github.com/storacha/go-ucanto/core/schema"
+	"github.com/storacha/go-ucanto/server"
+	"github.com/storacha/go-ucanto/validator"
 	"io"
 	"math/rand"
 	"os"
@@ -211,7 +215,51 @@ func c18Programs() []Program {
 			Prfs: [][]string{nil, {"link", "dup"}}[i%2]}
 		ps = append(ps, Program{Kind: "receipt", Rcpt: &s})
 	}
+	// receipts the server issues itself for requests it cannot run (no stack traces in these), and error
+	// receipts built from plain, named, wrapped and self-describing errors
+	for _, k := range []string{"notfound", "twocap", "handlererr", "handlernamed"} {
+		ps = append(ps, Program{Kind: "srvrcpt", Key: k})
+	}
+	for _, k := range []string{"plain", "named", "wrapped-named", "wrapped-stack", "wrapped-convertible", "convertible", "joined"} {
+		ps = append(ps, Program{Kind: "failure", Key: k})
+	}
 	return ps
+}
+
+// errors of the shapes callers hand to result.NewFailure
+type c18Named struct{ msg string }
+
+func (e c18Named) Error() string { return e.msg }
+func (e c18Named) Name() string  { return "C18Named" }
+
+type c18Stack struct{ c18Named }
+
+func (e c18Stack) Stack() string { return "at c18 (fixed)" }
+
+type c18Conv struct{ c18Named }
+
+func (e c18Conv) ToIPLD() (ipld.Node, error) {
+	return tvBuilder{tvMap([]KV{{"custom", tvInt(7)}, {"message", tvStr(e.msg)}})}.ToIPLD()
+}
+
+func c18Error(k string) error {
+	switch k {
+	case "plain":
+		return fmt.Errorf("plain trouble")
+	case "named":
+		return c18Named{"named trouble"}
+	case "wrapped-named":
+		return fmt.Errorf("while storing: %w", c18Named{"named trouble"})
+	case "wrapped-stack":
+		return fmt.Errorf("while storing: %w", c18Stack{c18Named{"stack trouble"}})
+	case "wrapped-convertible":
+		return fmt.Errorf("while storing: %w", c18Conv{c18Named{"custom trouble"}})
+	case "convertible":
+		return c18Conv{c18Named{"custom trouble"}}
+	case "joined":
+		return errors.Join(fmt.Errorf("first"), c18Named{"second"})
+	}
+	return fmt.Errorf("unknown")
 }
 
 // artifacts produced by a program: name -> hex bytes / string
@@ -374,6 +422,42 @@ func runProgram(p Program) (Artifacts, error) {
 		}
 		out["message"] = m.Root().Link().String()
 		out["message-root"] = hex.EncodeToString(m.Root().Bytes())
+	case "srvrcpt", "failure":
+		svc, alice := edPool[0], edPool[20]
+		caps := []ucan.Capability[NbMap]{ucan.NewCapability("test/fail", alice.DID().String(), NbMap{F: map[string]any{}})}
+		switch p.Key {
+		case "notfound":
+			caps[0] = ucan.NewCapability("test/none", alice.DID().String(), NbMap{F: map[string]any{}})
+		case "twocap":
+			caps = append(caps, ucan.NewCapability("test/other", "did:key:z6MkExample", NbMap{F: map[string]any{}}))
+		}
+		d, err := delegation.Delegate(alice, svc, caps, delegation.WithNonce("ran"), delegation.WithNoExpiration())
+		if err != nil {
+			return nil, err
+		}
+		var rc receipt.AnyReceipt
+		if p.Kind == "failure" {
+			rc, err = receipt.Issue(svc, result.NewFailure(c18Error(p.Key)), ran.FromInvocation(d))
+		} else {
+			var srv server.ServerView
+			srv, err = server.NewServer(svc, server.WithErrorHandler(func(server.HandlerExecutionError[any]) {}),
+				server.WithServiceMethod("test/fail", server.Provide(validator.NewCapability[NbMap]("test/fail", schema.DIDString(), nbReader{}, nil),
+					func(cap ucan.Capability[NbMap], inv invocation.Invocation, ctx server.InvocationContext) (okOut, fx.Effects, error) {
+						if p.Key == "handlernamed" {
+							return okOut{}, nil, c18Named{"named trouble"}
+						}
+						return okOut{}, nil, fmt.Errorf("plain trouble")
+					})))
+			if err != nil {
+				return nil, err
+			}
+			rc, err = server.Run(srv, d)
+		}
+		if err != nil {
+			return nil, err
+		}
+		out["link"] = rc.Root().Link().String()
+		out["root"] = hex.EncodeToString(rc.Root().Bytes())
 	case "did":
 		d, err := did.Parse(p.Key)
 		if err != nil {
@@ -461,7 +545,7 @@ func readRecorded(p Program, rec Artifacts) []string {
 			}
 			chk(rec["content-type"] == "application/vnd.ipld.car", "media type")
 		}
-	case "receipt":
+	case "receipt", "srvrcpt", "failure":
 		rootN, err := decodeAny(unhex("root"))
 		chk(err == nil, "recorded receipt root no longer decodes")
 		if err == nil {
@@ -470,7 +554,11 @@ func readRecorded(p Program, rec Artifacts) []string {
 			chk(e1 == nil && e2 == nil, "recorded receipt has another shape")
 			if e1 == nil && e2 == nil {
 				sb, _ := sig.AsBytes()
-				sg, _ := pickSigner(p.Rcpt.Key)
+				key := "ed0"
+				if p.Rcpt != nil {
+					key = p.Rcpt.Key
+				}
+				sg, _ := pickSigner(key)
 				chk(sg.Verifier().Verify(nodeBytes(ocm), signatureOf(sb)), "recorded receipt no longer verifies")
 			}
 		}
